@@ -537,6 +537,75 @@ pub fn run(ctx: &mut Ctx) {
         ctx.shape(&("extdebug", idx / 16));
     });
 
+    // ------------------------------------------------ the name-printing types under a formatter precision: the
+    // text must still carry the whole name / numeric fallback it prints without flags (a precision that cuts
+    // "BrainpoolP256r1tls13" to "BrainpoolP256r1" prints the name of another code point)
+    ctx.floor("precision.values", 65536 * 4 + 256 * 12);
+    macro_rules! prec16 {
+        ($ctx:expr, $idx:expr, $T:ident, [$($disp:tt)*]) => {{
+            for lo in 0..=255u32 {
+                let v = (($idx as u32) << 8 | lo) as u16;
+                let x = $T(v);
+                let plain_d = format!("{:?}", x);
+                let texts = [format!("{:.0?}", x), format!("{:.3?}", x), format!("{:.12?}", x), format!("{:.15?}", x), format!("{:.40?}", x)];
+                if let Some(t) = texts.iter().find(|t| !t.contains(plain_d.as_str())) {
+                    $ctx.violation(concat!("c17:format-precision:", stringify!($T), "::Debug").into(), json!({"value": v, "plain": clip(&plain_d), "with_flags": clip(t)}));
+                }
+                $(
+                    let plain = format!($disp, x);
+                    let texts = [format!("{:.0}", x), format!("{:.3}", x), format!("{:.12}", x), format!("{:.15}", x), format!("{:.40}", x)];
+                    if let Some(t) = texts.iter().find(|t| !t.contains(plain.as_str())) {
+                        $ctx.violation(concat!("c17:format-precision:", stringify!($T), "::Display").into(), json!({"value": v, "plain": clip(&plain), "with_flags": clip(t)}));
+                    }
+                )*
+                $ctx.count("precision.values");
+            }
+        }};
+    }
+    macro_rules! prec8 {
+        ($ctx:expr, $T:ident, [$($disp:tt)*]) => {{
+            for v in 0..=255u8 {
+                let x = $T(v);
+                let plain_d = format!("{:?}", x);
+                let texts = [format!("{:.0?}", x), format!("{:.3?}", x), format!("{:.12?}", x), format!("{:.15?}", x)];
+                if let Some(t) = texts.iter().find(|t| !t.contains(plain_d.as_str())) {
+                    $ctx.violation(concat!("c17:format-precision:", stringify!($T), "::Debug").into(), json!({"value": v, "plain": clip(&plain_d), "with_flags": clip(t)}));
+                }
+                $(
+                    let plain = format!($disp, x);
+                    let texts = [format!("{:.0}", x), format!("{:.3}", x), format!("{:.12}", x), format!("{:.15}", x)];
+                    if let Some(t) = texts.iter().find(|t| !t.contains(plain.as_str())) {
+                        $ctx.violation(concat!("c17:format-precision:", stringify!($T), "::Display").into(), json!({"value": v, "plain": clip(&plain), "with_flags": clip(t)}));
+                    }
+                )*
+                $ctx.count("precision.values");
+            }
+        }};
+    }
+    ctx.sweep("format-precision", 257, |ctx, idx| {
+        if idx < 256 {
+            prec16!(ctx, idx, NamedGroup, []);
+            prec16!(ctx, idx, TlsVersion, ["{}"]);
+            prec16!(ctx, idx, TlsExtensionType, ["{}"]);
+            prec16!(ctx, idx, SignatureScheme, ["{}"]);
+        } else {
+            prec8!(ctx, TlsRecordType, []);
+            prec8!(ctx, TlsHandshakeType, []);
+            prec8!(ctx, TlsHeartbeatMessageType, []);
+            prec8!(ctx, TlsCompressionID, []);
+            prec8!(ctx, CertificateStatusType, []);
+            prec8!(ctx, TlsAlertSeverity, ["{}"]);
+            prec8!(ctx, TlsAlertDescription, ["{}"]);
+            prec8!(ctx, HashAlgorithm, ["{}"]);
+            prec8!(ctx, SignAlgorithm, ["{}"]);
+            prec8!(ctx, SNIType, ["{}"]);
+            prec8!(ctx, CtVersion, ["{}"]);
+            prec8!(ctx, PskKeyExchangeMode, []);
+        }
+        ctx.evals(if idx < 256 { 256 * 4 * 12 } else { 256 * 12 * 10 });
+        ctx.shape(&("precision", idx / 16));
+    });
+
     // ------------------------------------------------ formatter state: Display / LowerHex of the integer-like types under
     // width, fill, alignment, sign, zero-padding, alternate form and precision. Whatever padding the impl
     // chooses to honour, the digits must still be the raw value (strip padding / sign / 0x, parse back).
